@@ -20,7 +20,7 @@
 
    Every comparator above is the lexicographic order on a list of integers derived from the key
    ([skey]); the model sorts by that. *)
-From Coq Require Import List ZArith NArith Bool.
+From Coq Require Import List ZArith NArith Bool Permutation.
 Import ListNotations.
 Open Scope bool_scope.
 
@@ -156,6 +156,42 @@ Definition scalar_canonical (k : skeyv) : Prop :=
   | SInt z => (- 2 ^ 63 <= z < 0)%Z
   | _ => True
   end.
+
+(* ---- values with maps at any depth: what the canonical encoder emits for a whole value ---- *)
+Section Nested.
+  Variable O : Type.
+  Variable encO : O -> list N.
+
+  Inductive tval :=
+  | TLeaf (n : N)                                   (* anything without a map inside *)
+  | TList (l : list tval)                           (* slice / array / struct fields, in order *)
+  | TMap (kk : kkind) (es : list (key O * tval)).   (* a map, entries in the runtime's iteration order *)
+
+  Fixpoint canon (v : tval) : tval :=
+    match v with
+    | TLeaf n => TLeaf n
+    | TList l => TList (map canon l)
+    | TMap kk es => TMap kk (enc_map_canon O encO tval kk (map (fun e => (fst e, canon (snd e))) es))
+    end.
+
+  (* the same Go value seen through two runs: maps list their entries in different orders *)
+  Inductive tequiv : tval -> tval -> Prop :=
+  | te_leaf : forall n, tequiv (TLeaf n) (TLeaf n)
+  | te_list : forall l l', Forall2 tequiv l l' -> tequiv (TList l) (TList l')
+  | te_map : forall kk es es' es'',
+      Forall2 (fun e e' => fst e = fst e' /\ tequiv (snd e) (snd e')) es es'' ->
+      Permutation es'' es' -> tequiv (TMap kk es) (TMap kk es').
+
+  (* every map in the value has pairwise distinct keys that satisfy keys_ok *)
+  Fixpoint wfkeys (v : tval) : Prop :=
+    match v with
+    | TLeaf _ => True
+    | TList l => (fix go (l : list tval) : Prop := match l with [] => True | x :: r => wfkeys x /\ go r end) l
+    | TMap kk es =>
+        NoDup (map fst es) /\ keys_ok O encO tval kk es /\
+        (fix go (l : list (key O * tval)) : Prop := match l with [] => True | e :: r => wfkeys (snd e) /\ go r end) es
+    end.
+End Nested.
 
 (* ---- binc with AsSymbols=1: the side encoder that produces the out-of-band key bytes keeps ONE
    symbol table for all the keys of a map (encode.go :895-907: one ResetBytes, then every key).
